@@ -654,6 +654,41 @@ def run(prog, rep, tier):
                     rep.violation(R914, "%s|kind-never-produced|%s" % (rb_.path, k_), "%s (line %d) compares an error's kind with ErrorKind::%s, which errno_to_errorkind never returns (it produces %s; ENOENT becomes Other); the comparison is constantly false, "
                                   "so the branch it was meant to select (skip an entry that merely lacks a field) never runs and the journal ends at the first such entry" % (rb_.path.split("::")[-1], c.line, k_, sorted(image_)))
 
+    # ------------------------------------------------------------ R9.15 libsystemd is called through the signatures its header declares
+    # The reader loads libsystemd at run time and calls it through a struct of function pointers
+    # (libload::systemd_dlopen2::SdJournalHApi) whose types are written by hand; the repository also
+    # carries bindgen's declarations of the same functions (bindings::sd_journal_h).  A field whose type
+    # differs from the declaration of the same name calls the C function with the wrong arguments
+    # (defect F51: sd_id128_get_boot declared with the three parameters of sd_journal_get_monotonic_usec -
+    # the journal handle was taken for the output pointer and overwritten with the boot id).
+    R915 = rep.rule("R9.15", "every function pointer of the libsystemd API struct has the signature bindgen declares for that name")
+    api915 = prog.facts.adts.get("s4lib::libload::systemd_dlopen2::SdJournalHApi")
+    if not api915 or not getattr(prog.facts, "foreign", None):
+        raise CheckerError("R9.15: API struct SdJournalHApi or the foreign declarations are missing from the facts")
+    n915 = 0
+
+    def _norm915(t_):
+        # the parameter list only: that is what the C function is handed.  A header function returning void that the
+        # struct types as returning c_int (sd_journal_close, sd_journal_restart_data) is harmless as long as the value
+        # is not used, and is not judged here.
+        t_ = _re912.sub(r"\s+", " ", t_.replace("unsafe ", "").replace('extern "C" ', "")).strip()
+        m_ = _re912.match(r"fn\((.*)\)( -> .*)?$", t_)
+        return "fn(%s)" % m_.group(1) if m_ else t_
+    for f_ in api915["variants"][0]["fields"]:
+        if "fn(" not in f_["ty"]:
+            continue
+        decl_ = prog.facts.foreign.get("s4lib::bindings::sd_journal_h::" + f_["name"])
+        n915 += 1
+        same_ = decl_ is not None and _norm915(decl_) == _norm915(f_["ty"])
+        rep.examined(R915, "SdJournalHApi|%s" % f_["name"], sample={"function": f_["name"], "field_type": _norm915(f_["ty"]), "declared": _norm915(decl_) if decl_ else None, "same": same_})
+        if decl_ is None:
+            raise CheckerError("R9.15: no bindgen declaration named %s" % f_["name"])
+        if not same_:
+            rep.violation(R915, "SdJournalHApi|%s|signature" % f_["name"], "libload::systemd_dlopen2 declares %s as `%s`, the header (bindings::sd_journal_h) as `%s`; calls through this pointer hand the C function the wrong arguments "
+                          "(for sd_id128_get_boot: the journal handle in place of the output pointer - libsystemd overwrites its own journal object)" % (f_["name"], _norm915(f_["ty"]), _norm915(decl_)))
+    if n915 < 8:
+        raise CheckerError("R9.15: only %d function pointers in SdJournalHApi" % n915)
+
     return rep.finish(
         "Static necessary-condition check of the journal reader: the entry instant is the journal receive time (constant override; the window "
         "test value flows from sd_journal_get_realtime_usec) and -a/-b are converted as instants; libsystemd is only asked to seek in analyze "
